@@ -159,7 +159,7 @@ PROPS["C20"] = dict(
                "index, with symbolic coefficients and point.",
     level_note="fr.Element by canonical value (felt), products uninterpreted modulo AC with zero/zero-divisor facts, the domain "
                "generator an opaque element. Conversions between bases (FFT) are not covered yet.",
-    bounds="size 4; canonical/regular for Evaluate, also with the vector extended to length 8 (SetSize 4; shifts 1, 7, -3); Lagrange regular and bit-reversed for GetCoeff",
+    bounds="size 4; canonical/regular for Evaluate, also with the vector extended to length 8 (SetSize 4; shifts 1, 7, -3); Lagrange regular and bit-reversed for GetCoeff (regular also with length 8 / size 4, shifts 1, 3, 6, -1, -5)",
     outside="form conversions, barycentric evaluation, derived builders, sizes > 4",
     assumptions=["felt summaries of fr.Element", "fft.Generator(m) is a fixed element depending only on m"],
 )
